@@ -24,10 +24,10 @@ type selftestResult struct {
 }
 
 type edit struct {
-	File   string
-	After  string // optional marker: the replacement applies to the first occurrence of Old after this text
-	Old    string
-	New    string
+	File  string
+	After string // optional marker: the replacement applies to the first occurrence of Old after this text
+	Old   string
+	New   string
 }
 
 type variant struct {
